@@ -43,11 +43,11 @@ def gen_structured(rng, vocab):
             segs.append(hx_seg("D", name, value)); src += form % (name, value)
             if name: userdefs.append(name)
         elif r < 0.85:
-            body = rng.choice(names) + rng.choice(["abc", "ドレミ", " x ", ""]) + rng.choice(names)
+            body = rng.choice(names) + rng.choice(["abc", "ドレミ", " x ", ""]) + rng.choice(names) + rng.choice(["", "", "\"", " \"x\" ", "}"])     # quotes and braces inside the string, also directly before its end
             s = '{"' + body + '"}'
             segs.append(hx_seg("V", s)); src += s
         else:
-            body = rng.choice(names) + rng.choice(["", " memo ", "ドレミ"])
+            body = rng.choice(["", "", "*", "* ", " /"]) + rng.choice(names) + rng.choice(["", " memo ", "ドレミ"]) + rng.choice(["", "", "*", " *", " / *", "**"])     # banner comments `/** … **/`
             if rng.random() < 0.5: s = "//" + body + "\n"
             else: s = "/*" + body + "*/"
             segs.append(hx_seg("V", s)); src += s
